@@ -102,7 +102,8 @@ pub fn dirent_size(namelen: usize, plus: bool) -> usize {
     }
 }
 
-fn check_dir(body: &[u8], entries: &[DirVals], plus: bool, req_size: u32, op: &str) -> Result<(), Fail> {
+/// `room`: payload bytes the reply buffer can hold (may be less than the requested size).
+fn check_dir(body: &[u8], entries: &[DirVals], plus: bool, req_size: u32, room: usize, op: &str) -> Result<(), Fail> {
     if body.len() > req_size as usize {
         return Err((format!("C03:{}:dir-exceeds-size", op), format!("directory payload {} bytes exceeds the requested size {}", body.len(), req_size)));
     }
@@ -114,11 +115,11 @@ fn check_dir(body: &[u8], entries: &[DirVals], plus: bool, req_size: u32, op: &s
         let want = dirent_size(d.name.len(), plus);
         match d.ret {
             Ok(0) => {
-                // refused: must not have fitted in what remained of the requested size
-                if (req_size as usize).saturating_sub(pos) >= want {
+                // refused: must not have fitted in what remained of the requested size and of the buffer
+                if (req_size as usize).min(room).saturating_sub(pos) >= want {
                     return Err((
                         format!("C03:{}:dir-refused-fitting-entry", op),
-                        format!("entry {} of {} bytes refused although {} bytes of the requested {} remained", i, want, req_size as usize - pos, req_size),
+                        format!("entry {} of {} bytes refused although {} bytes of the requested {} (buffer room {}) remained", i, want, (req_size as usize).min(room) - pos, req_size, room),
                     ));
                 }
                 break;
@@ -162,7 +163,8 @@ fn check_dir(body: &[u8], entries: &[DirVals], plus: bool, req_size: u32, op: &s
 }
 
 /// Compare one reply with the result the filesystem returned. `minor` = negotiated minor version.
-pub fn check_reply(g: &GenReq, call: Option<&Call>, out: &vkit::xport::Outcome, minor: u32) -> Result<(), Fail> {
+/// `cap`: reply-buffer capacity the transport offered (header included).
+pub fn check_reply(g: &GenReq, call: Option<&Call>, out: &vkit::xport::Outcome, minor: u32, cap: usize) -> Result<(), Fail> {
     let op = g.opname;
     let call = match call {
         Some(c) => c,
@@ -216,6 +218,14 @@ pub fn check_reply(g: &GenReq, call: Option<&Call>, out: &vkit::xport::Outcome, 
                 return err_only(libc::ENOENT);
             }
         }
+    }
+    if let Res::Dir { final_err: Some(_), .. } = &call.res {
+        // add_entry itself failed (no room in the reply buffer) and the filesystem propagated that
+        // error: the answer must be a clean error reply
+        if h.error == 0 {
+            return Err((format!("C03:{}:success-on-error", op), "the filesystem returned the add_entry error, the reply reports success".to_string()));
+        }
+        return want_len(body, 0, op);
     }
     if h.error != 0 {
         return Err((format!("C03:{}:error-on-success", op), format!("filesystem returned success, reply carries error {}", h.error)));
@@ -316,11 +326,8 @@ pub fn check_reply(g: &GenReq, call: Option<&Call>, out: &vkit::xport::Outcome, 
             Ok(())
         }
         Res::Dir { entries, final_err } => {
-            if let Some(ErrV::Raw(_)) = final_err {
-                // add_entry itself failed and the filesystem propagated that: any clean error reply
-                return Ok(());
-            }
-            check_dir(body, entries, call.method == "readdirplus", g.req_size.unwrap_or(0), op)
+            let _ = final_err;
+            check_dir(body, entries, call.method == "readdirplus", g.req_size.unwrap_or(0), cap.saturating_sub(OUT_HDR), op)
         }
         Res::Init(_) => Ok(()), // C12
         Res::Err(_) => unreachable!(),
@@ -398,7 +405,7 @@ pub fn run(args: &Args, rep: &mut Report) {
         if call.is_none() {
             rep.trivial += 1;
         }
-        if let Err((sig, why)) = check_reply(&g, call, &out, minor) {
+        if let Err((sig, why)) = check_reply(&g, call, &out, minor, cap) {
             rep.violation(
                 &sig,
                 idx,
@@ -446,12 +453,16 @@ fn dir_sweep(args: &Args, rep: &mut Report, env: &Env) {
         } as u32;
         vkit::klayout::put(&mut g.bytes, 40, "fuse_read_in", "size", size as u64);
         g.req_size = Some(size);
-        let script = Script { err_permille: 0, max_dir_entries: if cfg!(miri) { 6 } else { 300 }, ..Default::default() };
+        // a filesystem may treat an error of the add_entry callback as "buffer full" and return Ok
+        let swallow = r.chance(1, 2);
+        let script = Script { err_permille: 0, max_dir_entries: if cfg!(miri) { 6 } else { 300 }, swallow_dir_error: swallow, ..Default::default() };
         let (fs, srv) = new_server(r.next(), script);
-        let cap = OUT_HDR + size as usize + match r.below(3) {
-            0 => 0,
-            1 => 16,
-            _ => 4096,
+        let cap = match r.below(4) {
+            0 => OUT_HDR + size as usize,
+            1 => OUT_HDR + size as usize + 16,
+            2 => OUT_HDR + size as usize + 4096,
+            // a client that supplies the requested size but not the room for the header on top of it
+            _ => size as usize + r.below(16) as usize,
         };
         let tx = pick_tx(&mut r, g.bytes.len(), cap);
         let out = env.exec(&srv, &tx, &g.bytes, cap, false);
@@ -469,7 +480,7 @@ fn dir_sweep(args: &Args, rep: &mut Report, env: &Env) {
             rep.inconclusive("panic", outcome_json(&out));
             continue;
         }
-        if let Err((sig, why)) = check_reply(&g, call, &out, 33) {
+        if let Err((sig, why)) = check_reply(&g, call, &out, 33, cap) {
             rep.violation(
                 &sig,
                 idx,
@@ -478,6 +489,7 @@ fn dir_sweep(args: &Args, rep: &mut Report, env: &Env) {
                     ("request", req_json(&g)),
                     ("requested_size", J::U(size as u64)),
                     ("capacity", J::U(cap as u64)),
+                    ("filesystem_returns_ok_after_add_entry_error", J::Bool(swallow)),
                     ("transport", tx.j()),
                     ("fs_log", J::A(log.iter().map(|c| c.j()).collect())),
                     ("outcome", outcome_json(&out)),
